@@ -1131,7 +1131,7 @@ pub const SITES: &[(&str, &str, &str, &str)] = &[
   ("identity_iota_core/src/did/iota_did.rs", "Self::parse(did).expect(\"DIDs constructed with new should be valid\")", "yes: IotaDID::new / from_alias_id / placeholder with a NetworkName obtained from serde, from_alias_id with any string (KNOWN FINDING)", "strings: NetworkName::try_from/from_json follow-ups, IotaDID::from_alias_id"),
   ("identity_iota_core/src/did/iota_did.rs", "expect(\"normalizing a valid CoreDID should be Ok\")", "yes: IotaDID::try_from_core of any CoreDID", "strings: IotaDID::parse/try_from(CoreDID) trees + grid"),
   ("identity_iota_core/src/did/iota_did.rs", "&tail[1..]", "yes: network_str/tag_str of any accepted IOTA DID", "strings: iota_did_accessors"),
-  ("identity_iota_core/src/did/iota_did.rs", "expect(\"being able to successfully decode the tag", "no: From<&IotaDID> for AliasId is behind feature `client` (off in the harness build: needs iota-sdk)", "-"),
+  ("identity_iota_core/src/did/iota_did.rs", "expect(\"being able to successfully decode the tag", "yes: AliasId::from(&IotaDID) of any accepted IOTA DID (feature `client`)", "strings: iota_did_accessors"),
   ("identity_iota_core/src/document/iota_document.rs", "expect(\"empty IotaDocument constructor failed\")", "yes: IotaDocument::new(network) / new_with_id", "strings: NetworkName follow-ups, IotaDID::parse > IotaDocument::new_with_id"),
   ("identity_iota_core/src/document/iota_document.rs", "expect(\"controller is checked to be not empty\")", "yes: set_controller", "json: IotaDocument::from_json > set_controller"),
   ("identity_iota_core/src/state_metadata/document.rs", "CoreDID::parse(\"did:0:0\").unwrap()", "no: constant", "-"),
